@@ -441,23 +441,18 @@ def check_face_loops(run, funcs, pid):
                 skip = z3.BoolVal(False)
                 if exp_r.name == 'Some' and exp_s.name == 'None':
                     skip = z3.And(j < ns['idx'], ns['mask'](j))
-                run.prove('%s face loop[%s]: non-symmetric variant reports plane %d iff its normal is in the active subspace' % (pid, dim, plane),
-                          ns['pre'], z3.Not(ns['present'][plane] == valid[plane]), timeout=20, cross=False)
+                vv0, m0 = run.prove('%s face loop[%s]: non-symmetric variant reports plane %d iff its normal is in the active subspace' % (pid, dim, plane),
+                                    ns['pre'], z3.Not(ns['present'][plane] == valid[plane]), timeout=20, cross=False, on_sat='caller')
+                vv1, m1 = run.prove('%s face loop[%s]: symmetric variant reports plane %d only if its normal is in the active subspace' % (pid, dim, plane),
+                                    ns['pre'] + [z3.Not(valid[plane])], sy['present'][plane], timeout=20, cross=False, on_sat='caller')
+                for vvx, mx in ((vv0, m0), (vv1, m1)):
+                    if vvx == 'sat':
+                        _replay_loop_model(run, pid, mx, ns, j, dim, exp_r, exp_s, labels[plane][2])
                 vv, m = run.prove('%s face loop[%s, right=%s, shift=%s]: symmetric = non-symmetric minus faces of a constructed lower-index unshifted neighbour (plane %d)'
                                   % (pid, dim, exp_r.name, exp_s.name, plane), ns['pre'],
                                   z3.Not(sy['present'][plane] == z3.And(ns['present'][plane], z3.Not(skip))), timeout=20, on_sat='caller')
                 if vv == 'sat':
-                    i_ = int(engine.model_value(m, ns['idx']))
-                    j_ = int(engine.model_value(m, j))
-                    n = max(i_, j_) + 1
-                    mask = [bool(engine.model_value(m, ns['mask'](k))) for k in range(n)]
-                    p = {'kind': 'sym_loop', 'idx': i_, 'j': j_, 'mask': mask, 'dim': dim, 'right_some': exp_r.name == 'Some',
-                         'shift_some': exp_s.name == 'Some'}
-                    bad = check_sym_loop_native(p)
-                    if bad:
-                        run.violation('%s symmetric face integrals: %s (cell %d, neighbour %d, mask %r)' % (pid, bad, i_, j_, mask), engine.save_replay(pid, p))
-                    else:
-                        run.suspect.append('%s symmetric face loop: counterexample %r does not reproduce natively' % (pid, p))
+                    _replay_loop_model(run, pid, m, ns, j, dim, exp_r, exp_s, labels[plane][2])
     structural = [x for x in run.suspect if x.startswith('%s face loop' % pid)]
     if structural:
         for prof in ('debug', 'release'):
@@ -467,6 +462,105 @@ def check_face_loops(run, funcs, pid):
                 run.suspect[:] = [x for x in run.suspect if x not in structural]
                 break
     run.bound('face loops: 3 planes, 5 tetrahedra in the order [0,1,0,2,1]; labels enumerated x symbolic indices/mask')
+
+
+def check_cell_loop(run, funcs, pid):
+    """ConvexCell::compute_cell_integral: EVERY tetrahedron of the decomposition is collected exactly once, in stream order, as
+    (v0, v1, v2, generator) - whatever plane it belongs to and in every dimensionality (the dummy planes of 1D / 2D cells carry volume too)"""
+    tets = [0, 1, 0, 2, 1]
+    for dim in FR.DIMS:
+        idx = z3.Int('idx')
+        loc = rvec('loc')
+        labels = [(none(), none(), rvec('n0')), (none(), none(), Agg('DVec3', [Fraction(0), Fraction(1), Fraction(0)])),
+                  (some(z3.Int('j')), none(), Agg('DVec3', [Fraction(0), Fraction(0), Fraction(1)]))]
+        planes = [FR.half_space(n, rvec('pp%d' % k), r, s) for k, (r, s, n) in enumerate(labels)]
+        cell = FR.convex_cell(idx, loc, planes, dim)
+        tl = [tet(p, k) for k, p in enumerate(tets)]
+
+        def init_with_data(i, st, a, c):
+            st.events.append(('init', a[1]))
+            return Agg('RecC', (0,))
+
+        def collect(i, st, a, c):
+            cur = i.deref_read(st, a[0])
+            i.deref_write(st, a[0], Agg('RecC', (cur.items[0] + 1,)))
+            st.events.append(('collect', list(a[1:])))
+            return UNIT
+
+        ov = {'convex_cell::ConvexCell::decompose': lambda i, st, a, c: list_iter(tl),
+              '<ConvexCellDecomposition as IntoIterator>::into_iter': lambda i, st, a, c: a[0],
+              '<ConvexCellDecomposition as Iterator>::next': list_next,
+              '<I as CellIntegralWithData>::init_with_data': init_with_data,
+              '<I as CellIntegral>::collect': collect,
+              '<I as CellIntegral>::finalize': lambda i, st, a, c: Agg('RecC', tuple(a[0].items) + ('finalized',))}
+        name = engine.find_fn(funcs, r'convex_cell::<impl at [^>]*>::compute_cell_integral$')
+        interp = engine.new_interp(funcs, overrides=ov)
+        st = State()
+        st.heap[1] = cell
+        outs = interp.exec_fn(st, name, [Ref(('H', 1)), UNIT], {'M': 'WithoutFaces', 'I': 'RecC', 'D': '()'})
+        run.add_functions(interp, funcs)
+        ok = True
+        why = ''
+        for s2, v in outs:
+            col = [e[1] for e in s2.events if e[0] == 'collect']
+            tf = lambda t, nm: t.items[engine.field_index('src/voronoi/convex_cell.rs', 'ConvexCellTet', nm)]
+            want = [list(tf(t, 'vertices').items) + [loc] for t in tl]
+            same = len(col) == len(want) and all(all(x is y for x, y in zip(c_, w_)) for c_, w_ in zip(col, want))
+            if not same or 'finalized' not in v.items or v.items[0] != len(tets):
+                ok = False
+                why = '%d of %d tetrahedra collected' % (len(col), len(tets))
+        if not outs:
+            ok, why = False, 'no normal path'
+        run.obligations.append({'name': '%s cell loop[%s]: compute_cell_integral collects every tetrahedron of the decomposition once, in order, as (v0, v1, v2, generator) and finalizes (%d paths)'
+                                % (pid, dim, len(outs)), 'expect': 'unsat', 'verdict': 'unsat' if ok else 'sat', 'solver': 'path enumeration of the MIR + structural comparison',
+                                'solver_s': 0.0})
+        if not ok:
+            pl = {'kind': 'cell_loop', 'dim': dim}
+            bad = check_cell_loop_native(pl)
+            if bad:
+                run.violation('%s compute_cell_integral[%s]: %s' % (pid, dim, bad), engine.save_replay(pid, pl))
+            else:
+                run.suspect.append('%s cell loop[%s]: %s in the encoding; native volumes agree' % (pid, dim, why))
+    run.bound('cell loop: 3 planes (symbolic / wall / neighbour), 5 tetrahedra in the order [0,1,0,2,1], all three dimensionalities')
+
+
+def check_cell_loop_native(p, profile='debug'):
+    """VolumeIntegral through the public integrator API vs. the measure of the cell (closed form: generators on a line along x)"""
+    d = {'OneD': 1, 'TwoD': 2, 'ThreeD': 3}[p['dim']]
+    for prof in ('debug', 'release'):
+        o = engine.native(['cell_volumes %d' % d], prof)[0]
+        if o[0] != 'ok':
+            return 'native scenario panicked: ' + ' '.join(o[1:10])
+        vals = [float(x) for x in o[1:]]
+        n = len(vals) // 2
+        for k in range(n):
+            if abs(vals[k] - vals[n + k]) > 1e-9:
+                return 'cell %d: compute_cell_integrals::<VolumeIntegral> gives %r, the cell measure is %r [%s build]' % (k, vals[k], vals[n + k], prof)
+    return None
+
+
+def _replay_loop_model(run, pid, m, ns, j, dim, exp_r, exp_s, normal):
+    """native replay of a face-loop counterexample: labels, mask bits and the plane normal of the model through the real loops"""
+    i_ = int(engine.model_value(m, ns['idx']))
+    j_ = int(engine.model_value(m, j))
+    if max(i_, j_) > 40:
+        bi, bj = bool(engine.model_value(m, ns['mask'](i_))), bool(engine.model_value(m, ns['mask'](j_)))
+        i2, j2 = (0, 1) if i_ < j_ else (1, 0)
+        mask = [bi, bj] if i2 == 0 else [bj, bi]
+        i_, j_ = i2, j2
+    else:
+        mask = [bool(engine.model_value(m, ns['mask'](k))) for k in range(max(i_, j_) + 1)]
+    nrm = [float(engine.model_value(m, to_z3(x))) if is_z3(x) else float(x) for x in normal.items]
+    p = {'kind': 'sym_loop', 'idx': i_, 'j': j_, 'mask': mask, 'dim': dim, 'right_some': exp_r.name == 'Some', 'shift_some': exp_s.name == 'Some', 'normal': nrm}
+    if any(x.get('kind') == 'sym_loop' and x.get('idx') == i_ and x.get('j') == j_ and x.get('mask') == mask and x.get('normal') == nrm and x.get('dim') == dim
+           and x.get('right_some') == p['right_some'] and x.get('shift_some') == p['shift_some'] for x in getattr(run, '_loop_replays', [])):
+        return
+    run._loop_replays = getattr(run, '_loop_replays', []) + [p]
+    bad = check_sym_loop_native(p)
+    if bad:
+        run.violation('%s face-integral loops: %s (cell %d, neighbour %d, mask %r, normal %r, %s)' % (pid, bad, i_, j_, mask, nrm, dim), engine.save_replay(pid, p))
+    else:
+        run.suspect.append('%s face loop: counterexample %r does not reproduce natively' % (pid, p))
 
 
 def check_face_loops_native(p, profile='debug'):
@@ -494,9 +588,10 @@ def check_face_loops_native(p, profile='debug'):
 
 def check_sym_loop_native(p, profile='debug'):
     d = {'OneD': 1, 'TwoD': 2, 'ThreeD': 3}[p['dim']]
-    def plane(right, shift):
-        return (str(right) if right is not None else '-') + (' 1 1.0 0.0 0.0' if shift else ' 0') + ' 0'
-    pl0 = plane(p['j'] if p['right_some'] else None, p['shift_some'])
+    nrm = p.get('normal')
+    def plane(right, shift, normal=None):
+        return (str(right) if right is not None else '-') + (' 1 1.0 0.0 0.0' if shift else ' 0') + (' 1 %s' % ' '.join(engine.f2s(x) for x in normal) if normal else ' 0')
+    pl0 = plane(p['j'] if p['right_some'] else None, p['shift_some'], nrm)
     rest = ' '.join(plane(None, False) for _ in range(3))
     mask = p['mask']
     outs = []
@@ -522,6 +617,12 @@ def check_sym_loop_native(p, profile='debug'):
     in_ns = tgt in ns
     in_sy = tgt in sy
     skip = p['right_some'] and not p['shift_some'] and p['j'] < p['idx'] and mask[p['j']]
+    if nrm is not None:
+        valid = (d == 3) or (d == 2 and nrm[2] == 0) or (d == 1 and nrm[1] == 0 and nrm[2] == 0)
+        if in_ns != valid:
+            return 'plane with normal %r in %dD: non-symmetric face integrals report it: %s (normal in the active subspace: %s)' % (nrm, d, in_ns, valid)
+        if in_sy and not valid:
+            return 'plane with normal %r in %dD: symmetric face integrals report a face orthogonal to the active subspace' % (nrm, d)
     if in_sy != (in_ns and not skip):
         return 'plane towards %r: non-symmetric reports it: %s, symmetric reports it: %s, already reported by a constructed lower-index neighbour: %s' % (tgt[1], in_ns, in_sy, skip)
     return None
@@ -618,6 +719,10 @@ def check_normalisation_native(p, profile='debug'):
 
 
 def replay(d):
+    if d.get('kind') == 'cell_loop':
+        bad = check_cell_loop_native(d)
+        print(bad)
+        return 1 if bad else 0
     k = d['kind']
     if k == 'unconstructed_idx':
         bad = check_unconstructed_native(d)
